@@ -36,6 +36,15 @@ STRENGTHENED = {
     "C03w3-arg-expansion-memo": "C03: the same argument spelling inside and outside the expansion of an object-like macro",
     "C05w3-cleaner-reused-across-files": "all checks: failures that do not reproduce alone are reported as history-dependent instead of being dropped",
     "C02-endif-never-pops": "C02: nested chain selecting nothing before the bad `#elif` (C01 already reported it)",
+    "C12w4-parser-built-once": "C12: two command lines parsed through one ArgumentParser object and one database (state carried in parser defaults)",
+    "C12w4-realias-existing-alias": "C12: user configuration that re-points a name which is already an alias in the built-in files",
+    "C18w4-include-memo-shared-per-platform": "C18: a header that is resolvable for one translation unit of a platform only",
+    "C01w4-condition-memo-indirect": "C01: macro whose replacement names another macro, far macro (un)defined between two textually identical conditions",
+    "C10w4-setmap-cache-ignores-excludes": "C10: one parser state asked for the setmap of several code bases that share the root and differ in exclusions",
+    "C10w4-x-dropped-when-file-has-exclude": "C10: `-x` on the command line together with an exclude list (even an empty one) in the analysis file",
+    "C08w4-include-resolved-on-node": "C08: one file compiled by two commands whose `-I` lists resolve the same quoted include to different files",
+    "C14w4-parse-under-requested-name": "C14: link whose extension belongs to another language family than its target",
+    "C14w4-casefold-sort": "C14: two paths that differ in case only",
     "C11-split-fast-path": "C11: backslash-escaped and double-quoted renderings of the command string",
 }
 
